@@ -32,7 +32,9 @@ type Param struct {
 	Tag      string  // raw struct tag overriding the generated one (bad-input grammars)
 	// Embed (PObject): where the embedded dig.In sits. 0 first; 1 last; 2
 	// after an embedded plain struct Pad2 (which itself embeds two structs and
-	// is an optional dependency of its own); 3 after the first field.
+	// is an optional dependency of its own); 3 after the first field; 4 / 5:
+	// `ignore-unexported:"true"` with an unexported field before the embed /
+	// between the embed and the exported fields.
 	Embed int
 }
 
@@ -405,6 +407,15 @@ func placeMarker(fields []reflect.StructField, marker reflect.StructField, style
 			out := append([]reflect.StructField{fields[0], marker}, fields[1:]...)
 			return out
 		}
+	case 4, 5:
+		// dig.In `ignore-unexported:"true"` with an unexported field declared
+		// before the embed (4) or right after it, before the exported fields (5)
+		marker.Tag = `ignore-unexported:"true"`
+		hidden := reflect.StructField{Name: "hidden", PkgPath: "verif/universe", Type: tA}
+		if style == 4 {
+			return append([]reflect.StructField{hidden, marker}, fields...)
+		}
+		return append([]reflect.StructField{marker, hidden}, fields...)
 	}
 	return append([]reflect.StructField{marker}, fields...)
 }
